@@ -54,7 +54,7 @@ class Check(PropCheck):
             n = rng.randint(4, 12) if rng.random() < 0.7 else rng.randint(12, 50 if self.tier == 'quick' else 150)
             names = ['t%d' % i for i in range(n)]
             mode = 'exact' if rng.random() < 0.8 else 'mod'
-            t1 = gen.rand_tree(rng, n, mode, p_multi=rng.choice([0, 0.2]), p_unary=rng.choice([0, 0, 0.2]), internal_names=0.1, names=names)
+            t1 = gen.rand_tree(rng, n, mode, p_multi=rng.choice([0, 0.2]), p_unary=rng.choice([0, 0, 0.2]), internal_names=rng.choice([0.1, 0.1, 0.7]), names=names, collide=rng.choice([0, 0, 0.6]))
             r = rng.random()
             kind = 'pair'
             if r < 0.15:
